@@ -214,6 +214,9 @@ func (r *vrunner) line(toks []string) (string, bool) {
 				r.midiOut, r.midiIn, true, 0, r.sigs)
 			r.dev = &d
 		}()
+		if res == "ok" {
+			res = "ok | " + r.state()
+		}
 		return res, true
 	case "key":
 		ie := &input.InputEvent{
@@ -235,7 +238,7 @@ func (r *vrunner) line(toks []string) (string, bool) {
 		return r.event(ie), true
 	case "midiin":
 		// MIDI input is only observable through the LED frames (led engine); here it is accepted.
-		return "ok", true
+		return " | " + r.state(), true
 	case "disconnect":
 		if r.dead {
 			return " | " + r.state(), true
